@@ -30,7 +30,7 @@ def q(x):
 
 def gen_real(rng):
     """a program of real epgpy operators, described by constructor expressions (evaluated with `epg` in scope)"""
-    fam = rng.choice(["1d", "nd", "nd", "float", "floatcap", "halfgrid", "xchg", "diffusion", "diffusion", "trunc", "trunc"])
+    fam = rng.choice(["1d", "nd", "nd", "float", "floatcap", "halfgrid", "xchg", "xchg", "diffusion", "diffusion", "trunc", "trunc"])
     ops, init, opts = [], "epg.StateMatrix()", {}
 
     def rf():
@@ -145,6 +145,7 @@ def gen_real(rng):
             ops.append(rf())
     elif fam == "xchg":
         init = "epg.StateMatrix(shape=(2,))"
+        ops += [rf(), "epg.S(1)"]          # transverse magnetisation in a non-zero phase state before the first exchange
         for _ in range(n):
             k = rng.choice(["rf", "rf", "shift", "shift", "x", "x", "reset"])
             if k == "rf": ops.append(rf())
